@@ -310,4 +310,109 @@ park its worker for ever depends on the other writers of `errCh` -/
 def unguardedRaw (pts : List RawPoint) : List RawPoint :=
   pts.filter fun p => let b := bpOf p.2.1 p.2.2.1 p.2.2.2; !(b.guarded && b != .errSend)
 
+/-! ## Lock nesting (round 6, after seed C13-H: `updateState` calls `GetLastState` while holding `lastStateMtx`)
+
+The table `lockNesting` of the regenerated facts lists, for every critical section of every mutex the loops lock, the
+mutexes acquired INSIDE it (Lock or RLock, directly or through followed calls): edges *held → acquired*.
+`sync.Mutex` / `sync.RWMutex` are not re-entrant, so an edge `m → m` parks the goroutine on itself, and a cycle
+`a → b → a` lets two goroutines park on each other; neither is woken by a cancelled context.
+
+`lock m free` of the table above is enabled iff `free`; since this round the extractor sets `free` only if BOTH hold:
+no critical section of `m` contains another parking operation (old condition), and `m` is not on a nesting cycle (nor is
+anything acquired inside its sections).  What that flag stands for is the theorem `Spec.C13.lock_progress` about the
+sub-model below: mutexes with holders, workers that acquire according to a nesting table. -/
+namespace Locks
+
+abbrev Nest := List (Nat × Nat)
+
+/-- no edge `m → m` -/
+def noSelf (nest : Nest) : Bool := nest.all fun e => e.1 != e.2
+
+/-- position of `m` in the order `rank` (`rank.length` if absent) -/
+def pos (rank : List Nat) (m : Nat) : Nat := rank.idxOf m
+
+/-- `rank` is a topological order of `nest`: both ends of every edge occur in it, the held mutex strictly before the
+acquired one.  (Implies `noSelf` and acyclicity: `ranked_acyclic`.) -/
+def ranked (rank : List Nat) (nest : Nest) : Bool :=
+  nest.all fun e => decide (pos rank e.1 < pos rank e.2) && decide (pos rank e.2 < rank.length)
+
+/-- `b` can be reached from `a` along at least one and at most `fuel + 1` edges -/
+def reach (nest : Nest) : Nat → Nat → Nat → Bool
+  | 0, a, b => nest.any fun e => e.1 == a && e.2 == b
+  | fuel + 1, a, b => nest.any fun e => e.1 == a && (e.2 == b || reach nest fuel e.2 b)
+
+/-- `m` is on a cycle of the nesting relation (a self edge included) -/
+def onCycle (nest : Nest) (m : Nat) : Bool := reach nest nest.length m m
+
+/-- the whole relation is acyclic -/
+def acyclic (nest : Nest) : Bool := nest.all fun e => !onCycle nest e.1
+
+/-- a worker of the lock sub-model: the mutexes it holds (innermost first) and the one it is parked on, if any -/
+structure LW where
+  held : List Nat := []
+  want : Option Nat := none
+  left : Nat := 0          -- acquisitions it may still start (the budget of the table above)
+  deriving DecidableEq, Repr, Inhabited
+
+inductive LAct
+  | acquire (i m : Nat)   -- worker i reaches `m.Lock()` / `m.RLock()`: allowed by the table only if every mutex it holds
+                          -- has an edge to m
+  | grant (i : Nat)       -- the runtime hands the wanted mutex to worker i: only if NOBODY holds it (a reader behind a
+                          -- pending writer waits like a writer: all acquisitions are taken as exclusive)
+  | release (i : Nat)     -- worker i leaves its innermost critical section (`free`: nothing else parks it in there)
+  deriving DecidableEq, Repr, Inhabited
+
+def heldBy (ws : List LW) (m : Nat) : Bool := ws.any fun w => w.held.contains m
+
+def lstep (nest : Nest) (ws : List LW) : LAct → Option (List LW)
+  | .acquire i m =>
+    match ws[i]? with
+    | none => none
+    | some w =>
+      if w.want = none ∧ 0 < w.left ∧ (w.held.all fun h => nest.contains (h, m)) = true then
+        some (ws.set i { w with want := some m, left := w.left - 1 })
+      else none
+  | .grant i =>
+    match ws[i]? with
+    | none => none
+    | some w =>
+      match w.want with
+      | none => none
+      | some m => if heldBy ws m then none else some (ws.set i { w with held := m :: w.held, want := none })
+  | .release i =>
+    match ws[i]? with
+    | none => none
+    | some w =>
+      match w.want, w.held with
+      | none, _ :: rest => some (ws.set i { w with held := rest })
+      | _, _ => none
+
+inductive LReach (nest : Nest) (init : List LW) : List LW → Prop
+  | init : LReach nest init init
+  | step {ws ws' : List LW} (a : LAct) : LReach nest init ws → lstep nest ws a = some ws' → LReach nest init ws'
+
+/-- nobody holds or wants a mutex -/
+def quiet (ws : List LW) : Bool := ws.all fun w => w.held.isEmpty && w.want.isNone
+
+/-- a start state: nobody holds or wants anything (budgets arbitrary) -/
+def fresh (ws : List LW) : Bool := quiet ws
+
+/-- the runtime and the holders can do something: some `grant` or `release` is enabled -/
+def canMove (nest : Nest) (ws : List LW) : Prop :=
+  ∃ i, (lstep nest ws (.grant i)).isSome = true ∨ (lstep nest ws (.release i)).isSome = true
+
+def lwμ (w : LW) : Nat := 3 * w.left + (if w.want.isSome then 2 else 0) + w.held.length
+
+def lμ : List LW → Nat
+  | [] => 0
+  | w :: ws => lwμ w + lμ ws
+
+def lexec (nest : Nest) : List LW → List LAct → Option (List LW)
+  | ws, [] => some ws
+  | ws, a :: as => match lstep nest ws a with
+    | none => none
+    | some ws' => lexec nest ws' as
+
+end Locks
+
 end Shutdown
